@@ -133,6 +133,10 @@ pub enum NonAcqOp {
     Debug,
     /// `write!(sink, "{:?}", target)` into a sink that fails after n bytes
     DebugLimited(u16),
+    /// Debug formatting while the payload's own Debug impl returns Err
+    DebugPayloadErr,
+    /// Debug formatting while the payload's own Debug impl panics (the panic is caught)
+    DebugPayloadPanic,
     IsPoisoned,
     ClearPoison,
     /// child()/iter()/as_ref() accessors
@@ -183,6 +187,8 @@ pub enum Step {
     Yield,
     /// take shared target out of the world and run a destruction path on it
     Destroy(usize, Dtor),
+    /// run the inner step from inside a destructor while an unrelated (injected) panic unwinds
+    InUnwind(Box<Step>),
 }
 
 #[derive(Clone, PartialEq, Eq, Debug, Serialize, Deserialize)]
